@@ -11,8 +11,8 @@ BUILD = os.path.join(VERIF, 'build')
 GOENV = dict(os.environ, GOFLAGS='-mod=mod', GOPROXY='off')
 for k in ('GOSUMDB', 'GOTOOLCHAIN'):
     GOENV.pop(k, None)
-ALL_DRIVERS = ('prim_driver',)
-ALL_GO = ('prim',)
+ALL_DRIVERS = ('prim_driver', 'stream_driver')
+ALL_GO = ('prim', 'otel')
 ALLOWED_AXIOMS = set()  # none expected; stdlib axioms would be named here and in DESIGN.md §11
 
 os.makedirs(BUILD, exist_ok=True)
